@@ -41,10 +41,12 @@ Qed.
 Lemma esc_lit_rune_ascii r x : In x (esc_lit_rune true r) -> (x < 128)%N.
 Proof.
   unfold esc_lit_rune, lit_mode.
-  destruct (N.eqb r 34 || N.eqb r 92 || N.eqb r 10 || N.eqb r 13) eqn:E1.
+  destruct (N.eqb r 8 || N.eqb r 9 || N.eqb r 10 || N.eqb r 12 || N.eqb r 13 || N.eqb r 34 || N.eqb r 92) eqn:E1.
   { unfold echar_of.
     repeat match goal with |- context [if N.eqb r ?c then _ else _] => destruct (N.eqb r c) end;
       intros Hx; elems Hx; lia. }
+  destruct ((r <=? 31)%N || N.eqb r 127 || N.eqb r 65534 || N.eqb r 65535) eqn:E2.
+  { unfold uchar4. intros Hx. elems Hx; try lia; apply hexd_lt. }
   destruct (65535 <? r)%N eqn:E3.
   { unfold uchar8. intros Hx. elems Hx; try lia; try apply hexd_lt. apply hex_upper_lt. lia. }
   destruct (127 <? r)%N eqn:E4.
